@@ -199,6 +199,10 @@ class Exporter:
                 return [(-777777 if v == DYN else v) for v in op.properties[name].get_values()]
             iv = vals("static_offsets") + vals("static_sizes") + vals("static_strides")
             sv = [str(len(vals("static_sizes")))]
+        if kind in ("copy", "dealloc", "barrier") and not sv:
+            lits = [f"{k}={_attr_lit(v)}" for k, v in sorted(op.properties.items())]
+            lits += [f"{k}={_attr_lit(v)}" for k, v in sorted(op.attributes.items()) if k != "accfg.effects"]
+            sv = [";".join(lits)]
         if kind is None:
             pure = bool(is_side_effect_free(op)) and not op.regions
             kind = "pure" if pure else "eff"
